@@ -22,12 +22,20 @@ Record acfg := mkA {
   a_auth : N;                      (* ClientAuth 0..4 *)
   a_ccert : N;                     (* client certificate: 0 none, 1 trusted, 2 forged issuer *)
   a_callbacks : bool;              (* certificates through GetCertificate / GetKECertificate instead of Certificates *)
-  a_tickets : bool }.              (* session tickets on (client cache + server tickets) / off *)
+  a_tickets : bool;                (* session tickets on (client cache + server tickets) / off *)
+  a_pool : bool }.                 (* ClientCAs holds the CAs (true) / is an empty pool (false) *)
 
 Definition a_scfg (a : acfg) : scfg :=
   mkS (a_mode a) (a_ssuites a) (a_prefer a) (a_auth a) (negb (a_tickets a)) [1].
 Definition a_ccfg (a : acfg) : ccfg :=
   mkC (a_ckind a) (a_csuites a) (a_ccert a) 0 (a_tickets a).
+
+(* Certificate verification against Config.ClientCAs: with an empty pool no certificate chains to a root,
+   so every presented certificate counts as one that does not verify (the CertificateRequest then names no
+   CA and the client sends whatever certificate it has).  1/2 = SM2 trusted/forged, 3/4 = RSA trusted/forged. *)
+Definition eff_cert (pool : bool) (id : N) : N :=
+  if pool then id
+  else if N.eqb id 0 then 0 else if N.eqb id 1 || N.eqb id 2 then 2 else 4.
 
 (* key / certificate identities *)
 Definition id_sig : N := 11.       (* SM2 signing certificate and key *)
@@ -264,7 +272,7 @@ Definition server (a : acfg) : M result :=
                          | GCertificate ids =>
                            (* empty certificate list under Require*; processCertsFromClient verifies from
                               VerifyClientCertIfGiven on *)
-                           match client_auth (s_auth cfg) (hd 0 ids) with
+                           match client_auth (s_auth cfg) (eff_cert (a_pool a) (hd 0 ids)) with
                            | None => abort
                            | Some _ => mdo m2 <- readHandshake; ret (tr ++ [fst m1], ids, m2)
                            end
